@@ -310,6 +310,8 @@ pub const DEF_TYPES: &[&str] = &[
     "SCHEDULE-PD",
 ];
 
+pub const POSITIONAL_PARENT_TYPES: &[&str] = &["EXTERIOR-WALL", "INTERIOR-WALL", "UNDERGROUND-WALL", "ROOF"];
+
 /// Per-line annotation used for stratification: (block type or region, attribute key)
 #[derive(Clone, Debug, Default)]
 pub struct LineInfo {
@@ -566,7 +568,10 @@ pub fn enumerate_c19(file: &CorpusFile, thorough: bool) -> Vec<Variant> {
         let cellbase = format!("{}|{}|{}", fk, li.region, li.key);
         let blank = l.trim().is_empty();
         let mut push = |e: Edit| {
-            let cell = format!("{}|{}", cellbase, e.kind_name());
+            let cell = match &e {
+                Edit::NumOor { val, .. } => format!("{}|{}={}", cellbase, e.kind_name(), val),
+                _ => format!("{}|{}", cellbase, e.kind_name()),
+            };
             out.push(Variant { edit: e, cell });
         };
         if !blank {
@@ -657,6 +662,13 @@ pub fn enumerate_c02(file: &CorpusFile) -> Vec<Variant> {
                 edit: Edit::DefRenamed { line: b.start },
                 cell: format!("{}|{}|def_renamed", fk, b.btype),
             });
+            out.push(Variant {
+                edit: Edit::DefRemoved { line: b.start },
+                cell: format!("{}|{}|def_removed", fk, b.btype),
+            });
+        } else if POSITIONAL_PARENT_TYPES.contains(&b.btype.as_str()) {
+            // walls are referred to by their windows (by position in the file): losing the
+            // wall definition leaves the windows that follow without their own wall
             out.push(Variant {
                 edit: Edit::DefRemoved { line: b.start },
                 cell: format!("{}|{}|def_removed", fk, b.btype),
